@@ -621,6 +621,57 @@ Theorem c01_instantiation_yields_the_initial_state_of_the_module_tie :
 Proof. exact inst_of_modcase. Qed.
 End Instantiation.
 
+(* ================================================================== BULK-MEMORY operators and PASSIVE DATA SEGMENTS (Model/SemBulk.v, Proofs/SemBulk.v)
+   memory.init / data.drop / memory.copy / memory.fill on top of the whole-module machine; the DATA index space is renumbered by the round trip
+   (and unused passive segments are deleted by GC), so `memory.init 3` may become `memory.init 1`; compared with V8 by Run/BulkRun.v, also on
+   walrus's output binary decoded back *)
+From WV Require Import Model.SemBulk Proofs.SemBulk.
+Section Bulk.
+Local Open Scope N_scope.
+Theorem c01_round_trip_with_bulk_memory_operators_preserves_behaviour :
+  forall (m m' : cmod) (ds ds' : list dseg) (lslot lslot' : N -> N -> N) (fslot gslot mslot tslot dslot fslot' gslot' mslot' tslot' dslot' : N -> N)
+         (cxo : N -> pctx) (ecxo : N -> ectx) (rf : N -> N),
+       (forall i : N, fslot' (rf i) = fslot i) ->
+       (forall (i i2 : N) (d d2 : fdef), nth_optN i (cm_funcs m) = Some d -> nth_optN i2 (cm_funcs m) = Some d2 -> fslot i = fslot i2 -> i = i2) ->
+       (forall (j : N) (d' : fdef), nth_optN j (cm_funcs m') = Some d' -> exists (i : N) (d : fdef), nth_optN i (cm_funcs m) = Some d /\ rf i = j) ->
+       (forall (i ti : N) (ls : list valty) (body : list rt),
+        nth_optN i (cm_funcs m) = Some (ti, ls, body) ->
+        fn_ok (env_of m lslot fslot gslot mslot tslot) (env_of m' lslot' fslot' gslot' mslot' tslot') cxo ecxo (fslot i) body /\
+        (exists (ti' : N) (ls' : list valty),
+           nth_optN (rf i) (cm_funcs m') = Some (ti', ls', out_body (cxo (fslot i)) (ecxo (fslot i)) body) /\
+           nth_optN ti' (cm_tys m') = nth_optN ti (cm_tys m) /\
+           frames_agree (env_of m lslot fslot gslot mslot tslot) (env_of m' lslot' fslot' gslot' mslot' tslot') (fslot i) ti ls ls' body)) ->
+       cm_table m' = map (option_map rf) (cm_table m) ->
+       (forall i j : N, dslot i = dslot j -> i = j) ->
+       (forall i j : N, dslot' i = dslot' j -> i = j) ->
+       (forall (i ti : N) (ls : list valty) (body : list rt),
+        nth_optN i (cm_funcs m) = Some (ti, ls, body) ->
+        (forall d : N,
+         List.In d (datas_used (live body)) ->
+         dslot' (rd (cxo (fslot i)) (ecxo (fslot i)) d) = dslot d /\
+         option_map seg_bytes (nth_optN (rd (cxo (fslot i)) (ecxo (fslot i)) d) ds') = option_map seg_bytes (nth_optN d ds)) /\
+        (forall mi : N, List.In mi (bulk_mems_used (live body)) -> mslot' (SemCore.rm (cxo (fslot i)) (ecxo (fslot i)) mi) = mslot mi)) ->
+       forall (k fuel : nat) (f : N) (args : list val) (s0 : st) (dr : list N),
+       run_mod_b (benv_of_cmod m' ds' lslot' fslot' gslot' mslot' tslot' dslot') k fuel f args s0 dr =
+       run_mod_b (benv_of_cmod m ds lslot fslot gslot mslot tslot dslot) k fuel f args s0 dr.
+Proof. exact bulk_roundtrip_equiv. Qed.
+(* renumbering the segments WITHOUT renaming the operators changes behaviour: the theorem is not vacuous *)
+Theorem c01_renumbering_data_without_renaming_differs :
+  exists (m : cmod) (ds ds' : list dseg) (f : N) (s0 : st),
+    RTB.result (run_mod_b (benv_of_cmod m ds (fun _ : N => idN) idN idN idN idN idN) 2 0 f nil s0 nil) = Some (VI32 12 :: nil, 1 :: nil) /\
+    RTB.result (run_mod_b (benv_of_cmod m ds' (fun _ : N => idN) idN idN idN idN idN) 2 0 f nil s0 nil) = Some (VI32 22 :: nil, 1 :: nil).
+Proof. exact renumbering_without_renaming_differs. Qed.
+(* memory.copy: bounds checked first for the whole range, a trap writes nothing, overlapping ranges are copied correctly *)
+Theorem c01_memory_copy_meets_its_specification :
+  forall (c : st) (n s d : N) (k : list val),
+    stk c = VI32 n :: VI32 s :: VI32 d :: k ->
+    if (s + n <=? mem_len c) && (d + n <=? mem_len c)
+    then exists c' : st, mem_copy 0 0 c = Next c' /\ stk c' = k /\ pages c' = pages c /\ globs c' = globs c /\ locs c' = locs c /\
+                         (forall x : N, mget x (mem c') = (if within d n x then mget (s + (x - d)) (mem c) else mget x (mem c)))
+    else mem_copy 0 0 c = Halt Trap c.
+Proof. exact mem_copy_spec. Qed.
+End Bulk.
+
 Print Assumptions c01_normal_form_is_equivalent.
 Print Assumptions c01_equivalence_on_the_renamed_operators.
 Print Assumptions c01_divergence_preserved.
@@ -659,3 +710,6 @@ Print Assumptions c01_out_of_bounds_data_segment_fails_instantiation.
 Print Assumptions c01_dropping_passive_segments_is_invisible.
 Print Assumptions c01_instantiate_then_call_round_trip_with_globals_dropped.
 Print Assumptions c01_instantiation_yields_the_initial_state_of_the_module_tie.
+Print Assumptions c01_round_trip_with_bulk_memory_operators_preserves_behaviour.
+Print Assumptions c01_renumbering_data_without_renaming_differs.
+Print Assumptions c01_memory_copy_meets_its_specification.
